@@ -33,6 +33,9 @@ struct Ent {
     code: String,
     coord: u16,
     erase: bool,
+    /// put into the key list by (unmod k) / (unshift k): not a layout key state, so nothing erases
+    /// it before the physical key is released
+    sticky: bool,
 }
 
 struct Model {
@@ -49,6 +52,8 @@ struct Model {
     activated: u64,
     /// a physical key (OS code) that outputs two keys at once: (multi k1 k2)
     multi: Option<(u16, String, String)>,
+    /// physical key whose action is (unmod k) / (unshift k), and k
+    unmod: Option<(u16, String)>,
 }
 
 impl Model {
@@ -62,16 +67,20 @@ impl Model {
                 self.ents.retain(|e| !e.erase);
                 match &self.multi {
                     Some((c, k1, k2)) if *c == coord => {
-                        self.ents.push(Ent { code: k1.clone(), coord, erase: false });
-                        self.ents.push(Ent { code: k2.clone(), coord, erase: false });
+                        self.ents.push(Ent { code: k1.clone(), coord, erase: false, sticky: false });
+                        self.ents.push(Ent { code: k2.clone(), coord, erase: false, sticky: false });
                     }
-                    _ => self.ents.push(Ent { code: code_name(coord), coord, erase: false }),
+                    _ => match &self.unmod {
+                        Some((c, k)) if *c == coord => self.ents.push(Ent { code: k.clone(), coord, erase: false, sticky: true }),
+                        _ => self.ents.push(Ent { code: code_name(coord), coord, erase: false, sticky: false }),
+                    },
                 }
             } else {
                 self.ents.retain(|e| !e.erase && e.coord != coord);
             }
         }
-        let list: Vec<String> = self.ents.iter().map(|e| e.code.clone()).collect();
+        // (keys from unmod / unshift come after the layout's keys in the list)
+        let list: Vec<String> = self.ents.iter().filter(|e| !e.sticky).chain(self.ents.iter().filter(|e| e.sticky)).map(|e| e.code.clone()).collect();
         // apply the override rule
         let mut remove: Vec<String> = vec![];
         let mut add: Vec<String> = vec![];
@@ -114,7 +123,7 @@ impl Model {
         // eager erasure of the overridden non-modifier key
         for k in remove.iter().filter(|k| !Self::is_mod(k)) {
             for e in self.ents.iter_mut() {
-                if e.code == *k {
+                if e.code == *k && !e.sticky {
                     e.erase = true;
                 }
             }
@@ -222,11 +231,30 @@ impl Prop for C13 {
             ents.push(format!("{},{ik}>{},{ok}", im.join("+"), om.join("+")));
             forms.push(format!("({} {ik}) ({} {ok})", im.join(" "), om.join(" ")));
         }
-        let roa = r.chance(400);
+        // 'unmod-lone' population: a key whose action is (unmod k) / (unshift k), and no modifier is
+        // ever pressed: k is in the key list like any key, so an override of k alone applies to it
+        let unmod_lone = r.chance(120);
+        let unmod_letter = *r.pick(&LET[..3]);
+        if unmod_lone {
+            let ok = *r.pick(&["x", "y"]);
+            ents.insert(0, format!(",{unmod_letter}>,{ok}"));
+            forms.insert(0, format!("({unmod_letter}) ({ok})"));
+            // (the generated table may already override the bare letter: the first entry wins)
+            let mut i = 1;
+            while i < ents.len() {
+                if ents[i].starts_with(&format!(",{unmod_letter}>")) {
+                    ents.remove(i);
+                    forms.remove(i);
+                } else {
+                    i += 1;
+                }
+            }
+        }
+        let roa = !unmod_lone && r.chance(400);
         let mut case = Case { prop: "C13".into(), seed, ..Default::default() };
         // optionally a physical key that outputs two of the letters at once, so that two overridden
         // keys can be live in the same key list (eager erasure keeps that from happening otherwise)
-        let multi: Option<(&str, &str)> = if r.chance(300) {
+        let multi: Option<(&str, &str)> = if !unmod_lone && r.chance(300) {
             let k1 = *r.pick(&LET[..3]);
             let k2 = *r.pick(&LET[..3]);
             if k1 != k2 {
@@ -242,10 +270,10 @@ impl Prop for C13 {
             if roa { "yes" } else { "no" },
             MODS8.join(" "),
             LET.join(" "),
-            if multi.is_some() { " m" } else { "" },
+            if multi.is_some() { " m" } else if unmod_lone { " n" } else { "" },
             MODS8.join(" "),
             LET.join(" "),
-            multi.map(|(a, b)| format!(" (multi {a} {b})")).unwrap_or_default(),
+            if unmod_lone { format!(" ({} {unmod_letter})", *r.pick(&["unmod", "unshift"])) } else { multi.map(|(a, b)| format!(" (multi {a} {b})")).unwrap_or_default() },
             forms.join(" ")
         );
         if let Some((a, b)) = multi {
@@ -268,6 +296,11 @@ impl Prop for C13 {
         if multi.is_some() {
             keys.push(oscode_of("m"));
             keys.push(oscode_of("m"));
+        }
+        if unmod_lone {
+            case.set("unmod", unmod_letter);
+            keys.retain(|k| !MODS8.iter().any(|m| oscode_of(m) == *k));
+            keys.push(oscode_of("n"));
         }
         keys.sort();
         keys.dedup();
@@ -322,6 +355,7 @@ impl Prop for C13 {
                     let mut it = m.split(',');
                     Some((oscode_of("m"), up(it.next()?), up(it.next()?)))
                 }),
+                unmod: case.param("unmod").map(|k| (oscode_of("n"), up(k))),
             };
             m.run(&case.ops);
             for _ in 0..30 {
